@@ -187,6 +187,15 @@ fn op_progs(op: &Op) -> Vec<Op> {
                 out.push(Op::ParseExec { prog: p, ctx: ctx.clone(), times: *times });
             }
         }
+        Op::OnThreadExit { ops, late } => {
+            // first: the same operations on a thread that merely runs them (is the teardown needed at all?)
+            out.push(Op::OnThread { ops: ops.clone() });
+            for i in 0..ops.len() {
+                let mut b = ops.clone();
+                b.remove(i);
+                out.push(Op::OnThreadExit { ops: b, late: *late });
+            }
+        }
         Op::OnThread { ops } => {
             for i in 0..ops.len() {
                 let mut b = ops.clone();
